@@ -229,3 +229,28 @@ func VerifNumberShape(n int) {
 	vAssert(refSame(refParse(orig), refParse(out)), "same value")
 	vReach("end")
 }
+
+// VerifNumberHugePrec (C08/C10): a precision far beyond the length of the lexeme (up to MaxInt) changes nothing: no
+// overflow in the index arithmetic, exact value.
+func VerifNumberHugePrec(n int) {
+	buf := vBytes("in", n+3)
+	in := buf[:n]
+	vAssume(refIsNumber(in, true))
+	prec := []int{MaxInt, MaxInt - 1, MaxInt - 2, MaxInt / 2, 1 << 32, 1 << 31, 1<<31 - 1, 1000}[vChoice("prec", 8)]
+	orig := append([]byte(nil), in...)
+	var out []byte
+	if vBool("decimal") {
+		for _, c := range in {
+			vAssume(c != 'e' && c != 'E')
+		}
+		out = Decimal(in, prec)
+	} else {
+		out = Number(in, prec)
+	}
+	vReach("after-call")
+	vOutput("out", out)
+	vAssert(len(out) <= n, "never longer")
+	vAssert(refIsNumber(out, true), "output grammar")
+	vAssert(refSame(refParse(orig), refParse(out)), "same value")
+	vReach("end")
+}
